@@ -295,6 +295,21 @@ def fn_structure(text):
                 arrow=arrow, where=where)
 
 
+def stmt_ends(masked, open_pos, close_pos):
+    """positions just after each top-level `;` of the block (open_pos, close_pos)"""
+    out = []
+    d = 0
+    for k in range(open_pos + 1, close_pos):
+        ch = masked[k]
+        if ch in "([{":
+            d += 1
+        elif ch in ")]}":
+            d -= 1
+        elif ch == ";" and d == 0:
+            out.append(k + 1)
+    return out
+
+
 def apply_edits(text, edits, log, item_name):
     """literal / regex rewrites with mandatory match counts"""
     for e in edits or []:
@@ -379,6 +394,19 @@ def splice_fn(text, item, log):
             kw = st["loops"][int(where.split(":")[1])][0]
             # include a loop label if present
             add(kw, "\n" + p["text"] + "\n", 1)
+        elif where.startswith("after_stmt:"):
+            ends = stmt_ends(st["masked"], st["body_open"], st["body_close"])
+            k = int(where.split(":")[1])
+            if k >= len(ends):
+                raise Undecided("%s: statement ordinal %d not found" % (name, k))
+            add(ends[k], "\n" + p["text"] + "\n", 1)
+        elif where.startswith("after_stmt_in_loop:"):
+            _, l, k = where.split(":")
+            lp = st["loops"][int(l)]
+            ends = stmt_ends(st["masked"], lp[1], lp[2])
+            if int(k) >= len(ends):
+                raise Undecided("%s: statement ordinal %s in loop %s not found" % (name, k, l))
+            add(ends[int(k)], "\n" + p["text"] + "\n", 1)
         elif where.startswith("after:") or where.startswith("before:"):
             mode, lit = where.split(":", 1)
             n = text.count(lit)
